@@ -69,10 +69,20 @@ ASSUMPTIONS = ["a detached container (replaced on its owner, still held by the c
                "before the change (reorderings, carry-over reassignments); objects removed from the tree stay in the "
                "probe pool but are never re-inserted",
                "common fragment only: no wildcards/metadata/?/* names, no ListenerGroup, no 1-/2-argument (DST) "
-               "handlers in the model (1/2 arguments: oracle only, with ':' links or on the two-level 'child.value' shape; "
+               "handlers in the model; dispatch other than 'same' is outside the agreement statement (the handler itself then "
+               "runs at another time); what IS checked for dispatch='new'/'ui' is that the machinery's own re-registration "
+               "handlers stay synchronous (extra_checks; known finding F105-legacy-dict-dispatch for Dict links) "
+               "(1/2 arguments: oracle only, with ':' links or on the two-level 'child.value' shape; "
                "None is not assigned to the link there: handle_dst raises TraitError), dispatch='same', priority=False",
-               "ListenerParser itself is not modelled; names are produced in both syntaxes from one AST and the "
-               "correspondence covers the parse"]
+               "ListenerParser: translated (legacysrc -> Generated/LegacyProg.lean `parse_item` / `pprog`, language "
+               "Model/ParL.lean) and interpreted at TOKEN level: C16_parser_is_source proves that every name "
+               "a0 c0 a1 c1 ... final of the fragment parses to the chain the model assumes (notify = connector is '.', "
+               "handler type and deferred only on the first item).  The tokenizer (the properties next / skip_ws / "
+               "backspace / name and the two regular expressions) is pinned text, read as: an identifier is one token, "
+               "every other significant character one token, EOS a character different from all of them; the "
+               "name STRINGS handed to the two real APIs are produced from one AST and the correspondence covers the "
+               "tokenization; `*` cycles, metadata and `?` names are interpreted by the parser embedding but not by the "
+               "registration model"]
 EXHAUSTIVE = {"quick": False, "thorough": True}
 
 
@@ -139,6 +149,33 @@ def generate(rng, tier):
 
 def run_impl(case):
     return G.run_case(case)
+
+
+DISPATCH_SIG = "reregistration-dispatch:dict-link-uses-handler-dispatch"
+
+
+def extra_checks(ctx):
+    """White box, deterministic: the listener machinery's OWN re-registration handlers (handle_simple / handle_list(_items) /
+    handle_dict(_items)) must run synchronously whatever dispatch the user's handler asked for; otherwise the set of hooked
+    objects lags behind the graph (finding F105-legacy-dict-dispatch: _register_dict passes dispatch=self.dispatch)."""
+    from traits.trait_notifiers import TraitChangeNotifyWrapper
+    Node = G.node_class()
+    hits = []
+    for disp in ("new", "ui"):
+        bad = []
+        for a in "ckbs":
+            root = Node()
+            root.on_trait_change(lambda obj, name, old, new: None, G.ATTR[a] + ":value", dispatch=disp)
+            for tn in (G.ATTR[a], G.ATTR[a] + "_items"):
+                t = root._trait(tn, 1)
+                for n in ((t._notifiers(False) or []) if t is not None else []):
+                    if isinstance(n, TraitChangeNotifyWrapper) and (n.name or "").startswith("handle_") \
+                            and type(n).__name__ != "ExtendedTraitChangeNotifyWrapper":
+                        bad.append("%s:%s=%s" % (tn, n.name, type(n).__name__))
+        if bad:
+            hits.append({"signature": DISPATCH_SIG, "what": "on_trait_change(h, '<link>:value', dispatch=%r): re-registration "
+                         "handlers not installed with the synchronous 'extended' dispatch: %s" % (disp, ", ".join(bad))})
+    return hits
 
 
 def nontrivial(case, out):
